@@ -1,10 +1,31 @@
+mod case;
+mod dd;
 mod diff;
 mod gen;
 mod ind;
+mod props;
 mod rec;
 mod rng;
+mod runner;
+mod spec;
 
-use std::io::BufWriter;
+use std::io::{BufWriter, Write};
+
+fn jstr(s: &str) -> String {
+    let mut o = String::from("\"");
+    for c in s.chars() {
+        match c {
+            '"' => o.push_str("\\\""),
+            '\\' => o.push_str("\\\\"),
+            '\n' => o.push_str("\\n"),
+            '\t' => o.push_str("\\t"),
+            c if (c as u32) < 0x20 => o.push_str(&format!("\\u{:04x}", c as u32)),
+            c => o.push(c),
+        }
+    }
+    o.push('"');
+    o
+}
 
 fn main() {
     std::panic::set_hook(Box::new(|_| {}));
@@ -25,6 +46,64 @@ fn main() {
                 println!("  {}", p);
             }
         }
-        _ => eprintln!("usage: harness diff <seed> <sessions-per-indicator> <out>"),
+        // harness prop <Cxx> <seed> <quick|thorough> <ops out> <report out>
+        "prop" => {
+            let prop = args[2].clone();
+            let seed: u64 = args[3].parse().unwrap();
+            let tier = if args[4] == "thorough" { runner::Tier::Thorough } else { runner::Tier::Quick };
+            let check = match props::check_fn(&prop) {
+                Some(c) => c,
+                None => {
+                    eprintln!("unknown property {}", prop);
+                    std::process::exit(2);
+                }
+            };
+            let w: Box<dyn Write> = Box::new(BufWriter::new(std::fs::File::create(&args[5]).unwrap()));
+            let mut r = runner::Runner::new(Some(w), seed, tier, check);
+            let t0 = std::time::Instant::now();
+            props::generate(&prop, &mut r);
+            r.finish();
+            let mut rep = String::from("{");
+            rep.push_str(&format!("\"property\":{},", jstr(&prop)));
+            rep.push_str(&format!("\"evaluations\":{},\"steps\":{},\"distinct\":{},\"distinct_nontrivial\":{},\"logged_cases\":{},\"lines\":{},\"impl_panics\":{},\"exhaustive\":{},\"wall_s\":{:.3},", r.evaluations, r.steps, r.distinct.len(), r.nontrivial, r.logged_cases, r.rec.lines, r.rec.panics, r.exhaustive, t0.elapsed().as_secs_f64()));
+            rep.push_str(&format!("\"rule\":{},", jstr(props::rule(&prop))));
+            rep.push_str("\"dist\":{");
+            rep.push_str(&r.dist.iter().map(|(k, v)| format!("{}:{}", jstr(k), v)).collect::<Vec<_>>().join(","));
+            rep.push_str("},\"opmix\":{");
+            rep.push_str(&r.rec.opcount.iter().map(|(k, v)| format!("{}:{}", jstr(k), v)).collect::<Vec<_>>().join(","));
+            rep.push_str("},\"samples\":[");
+            rep.push_str(&r.samples.iter().map(|s| jstr(s)).collect::<Vec<_>>().join(","));
+            rep.push_str("],\"failures\":[");
+            rep.push_str(
+                &r.failures
+                    .iter()
+                    .map(|(c, f)| format!("{{\"key\":{},\"msg\":{},\"case\":{},\"pretty\":{}}}", jstr(&f.key), jstr(&f.msg), jstr(&c.encode()), jstr(&c.pretty(40))))
+                    .collect::<Vec<_>>()
+                    .join(","),
+            );
+            rep.push_str("]}");
+            std::fs::write(&args[6], rep).unwrap();
+            println!("property={} evaluations={} steps={} failures={} wall={:.1}s", prop, r.evaluations, r.steps, r.failures.len(), t0.elapsed().as_secs_f64());
+        }
+        // harness replay <file containing "case":"…">
+        "replay" => {
+            let txt = std::fs::read_to_string(&args[2]).unwrap();
+            let key = "\"case\":\"";
+            let i = txt.find(key).expect("no case in replay file") + key.len();
+            let j = txt[i..].find('"').unwrap() + i;
+            let enc = txt[i..j].replace("\\\\", "\\");
+            let case = case::Case::decode(&enc).expect("bad case encoding");
+            let mut rec = rec::Rec::new(None);
+            match props::check_case(&case, &mut rec) {
+                Some(f) => {
+                    println!("REPRODUCED {} {}", f.key, f.msg);
+                    std::process::exit(1);
+                }
+                None => {
+                    println!("NOT-REPRODUCED (property holds on this case now)");
+                }
+            }
+        }
+        _ => eprintln!("usage: harness diff|prop|replay …"),
     }
 }
